@@ -55,9 +55,10 @@ KNOWN = {
     "F40": ("primitive-named-identifier", {"ast", "bc"}),   # `(<'int>)c`: a type-parameter pattern loses its angle brackets -> `('int)c` (primitive, not the parameter)
     "F41": ("toplevel-type-binding", {"reparse", "ast", "bc"}),  # a statement `'d<'t> = <chain>` (type pattern binding) is re-read as a type alias
     "F43": ("name-then-paren", {"reparse"}),               # `.. Name , (pat) = ..` (also `=Name`, or a type alias ending in a bare name): the comma becomes a newline and `Name\n(` no longer parses (tuple_name refuses a following `(` across whitespace)
-    "F44": ("comment-in-pattern", {"reparse"}),             # a comment inside the brackets of a pattern is re-attached as a trailing comment in the middle of a chain that continues with `~>`: output does not re-parse
+    "F44": ("out-comment-before-continuation", {"reparse"}),             # a deferred trailing comment (e.g. of a guard, or one written inside a pattern) is flushed at the first line break, which can be a `~>` continuation line: output does not re-parse (signature read off the OUTPUT: a comment ends a line whose successor starts with `~>`)
     "F45": ("select-then-tuple", {"ast", "bc"} | IK),       # `x ! ~> [a]` is rendered `x ! [a]` = the general select form with sources
     "F46": ("bodyless-fn-then-block", {"ast", "bc"} | IK),  # `#'int ~> { .. }` / `.. #'int, { .. } ..` is rendered `#'int { .. }` / `#'int\n{ .. }` = a function WITH that body
+    "F48": ("empty-select-sources", {"idem:layout"}),       # an over-long chain breaks inside the empty source list of `! []` and emits a blank line there, which the 2nd format re-attaches
     "F47": ("multi-hole-trivia", {"reparse"} | CK | IK),    # chains inside a hole of a """ string carry offsets relative to the hole: comments/blank lines of the file are attached to them (printed inside the hole)
 }
 
